@@ -1,5 +1,6 @@
 import NssVerif.Lemmas.Stage
 import NssVerif.Props.C05
+import NssVerif.Props.C04
 
 /-!
 # C11 — Every per-event stage is a pure, order-independent function of its inputs
@@ -142,7 +143,7 @@ theorem tauEnergyBatch_error (t : CdfTable α) (evs : List (Ev α)) (e : Ev α) 
 
 /-- the per-event exit-probability value before exponentiation, as the per-event model computes it -/
 theorem pexitCall_unfold (t : PexitTable α) (b le : α) : (pexitCall t b le).2 =
-    (if ltb (t.beta.getD (t.beta.length - 1) 0) b then Except.ok (pow 10 (log10 eps32))
+    (if ltb (t.beta.getD (t.beta.length - 1) 0) b then Except.ok (pow 10 log10Eps32)
      else
       if Model.Interp.outOfBounds t.logE le || Model.Interp.outOfBounds t.beta (if ltb b (t.beta.getD 0 0) then t.beta.getD 0 0 else b)
         then Except.error Err.outOfBounds
@@ -207,7 +208,7 @@ theorem pexitBatch_pointwise (t : PexitTable α) (evs : List (Pv α)) (P : Pv α
       = select (evs.map (pLow bmin)) (evs.map fun e => bilinear t.logE t.beta lg e.le bmin) := by
     rw [select_map_comm (pLow bmin) _ evs]; rfl
   rw [e2, scatter_select_map (pLow bmin) _ _ evs]
-  rw [← select_map_comm (pHigh bmax) (fun _ => (log10 eps32 : α)) evs, scatter_select_map (pHigh bmax) _ (fun _ => log10 eps32) evs]
+  rw [← select_map_comm (pHigh bmax) (fun _ => (log10Eps32 : α)) evs, scatter_select_map (pHigh bmax) _ (fun _ => log10Eps32) evs]
   rw [List.map_map]
   apply List.map_congr_left
   intro e he
@@ -261,6 +262,43 @@ is history independent (C05) -/
 theorem pexit_repeat (t : PexitTable ℝ) (b le : ℝ) (n : Nat) :
     pexitAfter t (List.replicate n (b, le)) b le = (pexitCall t b le).2 :=
   C05.history_independent t _ b le
+
+/-! ### source tie: the batched tau stages, as the code computes them, are the TRANSLATED per-event functions applied event by event
+
+`Gen.Src.C04.tauEnergy` / `Gen.Src.C05.tauExitProb` are regenerated from `taus.py` on every run (their bridging theorems are
+`C04.src_tauEnergy_ok`, `C05.src_tauExitProb`).  The translator reads every mask store `out[m] = v[m]` of the source as the
+element-wise conditional `if m then v else out` — the right-hand side of `scatter_select`; the two theorems below close the loop:
+the batch model (selected sub-batches, 8192-element iterator chunks, scatter) returns, at every position, the value of the
+translated source for that event alone.  Hence permuting / splitting the batch permutes / splits the results
+(`pointwise_perm`, `pointwise_split` with `f` = the translated function). -/
+
+section SourceTie
+variable {α : Type} [Scalar α]
+open Scalar
+
+/-- the batched tau-energy stage = the translated `Taus.tau_energy` event by event, with each event's sampler results `zv e`
+(in-table angle) / `zl e` (below the table) at the event's own exported query point -/
+theorem src_tauEnergyBatch (t : CdfTable α) (evs : List (Ev α)) (zv zl : Ev α → α)
+    (hex : ∀ e ∈ evs, ¬ (ltb e.b (t.beta.getD 0 0) = true ∧ ltb (t.beta.getD (t.beta.length - 1) 0) e.b = true))
+    (hv : ∀ e ∈ evs, ltb e.b (t.beta.getD 0 0) = false → ltb (t.beta.getD (t.beta.length - 1) 0) e.b = false →
+      cdfSample t e.le e.b e.u = .ok (zv e))
+    (hl : ∀ e ∈ evs, ltb e.b (t.beta.getD 0 0) = true → cdfSample t e.le (t.beta.getD 0 0) e.u = .ok (zl e)) :
+    tauEnergyBatch t evs = .ok (evs.map fun e => (Gen.Src.C04.tauEnergy e.b e.le e.u t.beta (zv e) (zl e)).ret) :=
+  tauEnergyBatch_pointwise t evs _ hex fun e he => C04.src_tauEnergy_ok t e.b e.le e.u (zv e) (zl e) (hex e he) (hv e he) (hl e he)
+
+/-- the batched exit-probability stage = the translated `Taus.tau_exit_prob` event by event (every event that reaches the
+interpolator inside the table: otherwise scipy raises and so does the batch), and it leaves the floored table -/
+theorem src_pexitBatch (t : PexitTable α) (evs : List (Pv α)) (x : α)
+    (hex : ∀ e ∈ evs, ¬ (ltb e.b (t.beta.getD 0 0) = true ∧ ltb (t.beta.getD (t.beta.length - 1) 0) e.b = true))
+    (hin : ∀ e ∈ evs, (!(ltb (t.beta.getD (t.beta.length - 1) 0) e.b) &&
+      (Model.Interp.outOfBounds t.logE e.le || Model.Interp.outOfBounds t.beta (if ltb e.b (t.beta.getD 0 0) then t.beta.getD 0 0 else e.b))) = false) :
+    (pexitBatch t evs).2 = .ok (evs.map fun e => (Gen.Src.C05.tauExitProb e.b e.le x t.beta
+        (bilinear t.logE t.beta ((floorTable t.data).map fun r => r.map log10) e.le e.b)
+        (bilinear t.logE t.beta ((floorTable t.data).map fun r => r.map log10) e.le (t.beta.getD 0 0))).ret) ∧
+    (pexitBatch t evs).1 = { t with data := floorTable t.data } :=
+  pexitBatch_pointwise t evs _ hex fun e he => by rw [C05.src_tauExitProb t e.b e.le x, hin e he]; rfl
+
+end SourceTie
 
 /-! ### non-vacuity of the mask lemma: a 4-event batch with mask T F T F -/
 example : scatter ([1, 2, 3, 4].map fun n => n % 2 == 1) ([1, 2, 3, 4].map fun _ => 0)
